@@ -216,6 +216,20 @@ theorem C20_pruned {s : Sys} (hr : Reachable s) (t : Nat) (must : List Nat)
   have hd := hp.2.2.2 t must h k hk
   exact ⟨hd.2, hd.1.2, hd.1.1⟩
 
+/-- Closed is closed, whatever is still queued: a subscriber that closed its receiver with `Receiver::close()`
+while its bounded queue was EXACTLY FULL (capacity 1, one unread event - `Op.shut`, the backlog is kept, no free
+permit) is pruned by the next publish on its topic all the same: `try_send` reports `Closed` before it looks for a
+free slot.  `C20_pruned` covers this state like any other (`Reachable` includes `shut` steps); this is the concrete
+instance (a capacity pre-check in front of `try_send` would skip exactly this subscriber for ever). -/
+example :
+    let h0 : Hub := emptyHub fun _ => 1
+    let h1 := (apply h0 (.sub "stats" 0)).1
+    let h2 := (apply h1 (.pub "stats" 7)).1     -- fills the one slot
+    let h3 := (apply h2 (.shut 0)).1            -- receiver closed, backlog kept
+    ((h3.chans 0).queue.length = 1 ∧ (h3.chans 0).cap = 1 ∧ (h3.chans 0).closed = true ∧ h3.entries.length = 1) ∧
+      (apply h3 (.pub "stats" 8)).2 = .published [0] ∧ (apply h3 (.pub "stats" 8)).1.entries = [] := by
+  decide
+
 /-! ## The atomic-op layer (what is compared with the real code) is the small-step semantics -/
 
 /-- One call: from any state with the mutex free, running task `t` alone for some number of turns
